@@ -1,10 +1,127 @@
-import Exetera.Model.Csv
-import Exetera.Spec.Csv
+import Exetera.Lemmas.CsvDriverThm
 /-!
 # C05 — CSV import reproduces the file's records exactly, independent of chunking
+
+All theorems are about the model the correspondence driver executes (`Driver/C05.lean` → `Exetera.Csv.fastCsvReader`,
+`readFile`, `readCsv` of `Model/Csv.lean`, which mirrors the code with the fixes D26, NC05a, D27 applied) and about the
+specification `Spec/Csv.lean`: a file is `render (header :: rows)` for rows of well-formed cells (`Table`), and the import
+must produce `values rows` (the cell texts; blanks in front of a bare cell skipped), column by column, as indexed string
+fields `fieldOf (column (values rows) c)` (offsets `[0, |e₀|, |e₀|+|e₁|, …]` and the concatenated bytes).
+
+An `.ok` result means: every subscript of the compiled kernel was in bounds, no `raise` was reached, the kernel loop ended
+within its fuel `len(source) + 1` (termination), and the driver ended within the given number of kernel calls.
+
+Proved for all inputs: `fsm_whole_eq_spec`, `fsm_split_at_record_end`, `import_single_window_eq_spec`,
+`include_exclude_selects`. Not proved (kept visible below as comments): `window_chunking_unobservable`,
+`regrowth_unobservable` — the general multi-window / buffer-regrowth statements; they are supported by the exhaustive
+small-scope and random correspondence only.
 -/
 namespace Exetera.Props.C05
-open Exetera Exetera.Csv
+open Exetera Exetera.Csv Exetera.Csv.Spec
+
+/-- the staging buffers as the driver allocates them: `ncols` index rows of `maxrow + 1` zeros, `column_vals` of
+    `column_offsets[-1]` zeros; `column_offsets` has `ncols + 1` non-decreasing entries starting at 0 -/
+structure Buffers (ncols maxrow : Nat) (offs : List Nat) : Prop where
+  len : offs.length = ncols + 1
+  zero : offAt offs 0 = 0
+  mono : ∀ c, c < ncols → offAt offs c ≤ offAt offs (c + 1)
+
+/-- every column's bytes fit strictly into its budget `column_offsets[c+1] - column_offsets[c]` (no regrowth needed) -/
+def Fits (ncols : Nat) (offs : List Nat) (rows : List (List Cell)) : Prop :=
+  ∀ c, c < ncols → offAt offs c + (column (values rows) c).flatten.length < offAt offs (c + 1)
+
+/-- **fsm_whole_eq_spec.** One call of `fast_csv_reader` on the text of a header line and a table, entered at byte 0 with
+    fresh buffers that are large enough: it returns `next_pos = len(source)`, `written_row_count = number of records`,
+    no full flag, and what `import_part` then reads from the staging buffers for column `c` is exactly column `c` of the
+    table's values. -/
+theorem fsm_whole_eq_spec {ncols maxrow : Nat} {offs : List Nat} (hrow : List Cell) (rows : List (List Cell))
+    (hhdr : hrow.length = ncols ∧ ∀ c ∈ hrow, c.WF) (htab : Table ncols rows) (hbuf : Buffers ncols maxrow offs)
+    (hfit : Fits ncols offs rows) (hrows : rows.length < maxrow) :
+    ∃ o, fastCsvReader (render (hrow :: rows)) 0 (zeros2 ncols (maxrow + 1)) (List.replicate (offs.getLastD 0) 0) offs true
+          = .ok o ∧
+      o.nextPos = (render (hrow :: rows)).length ∧ o.written = rows.length ∧ o.indsFull = false ∧ o.valsFull = false ∧
+      o.vfc = none ∧
+      ∀ c, c < ncols →
+        Imp.importPart { kind := .indexed } o.inds o.vals offs c rows.length = .ok (fieldOf (column (values rows) c)) := by
+  obtain ⟨hnc, htab'⟩ := htab
+  have hsh := shape_zeros (maxrow := maxrow) hbuf.len hbuf.zero hbuf.mono
+  have hcap : RowsCap offs (fun _ => []) rows :=
+    rowsCap_of_final offs ncols rows _ (fun r hr => (htab' r hr).1) (by simpa [Fits] using hfit)
+  obtain ⟨o, hker, hok⟩ :=
+    kernel_records (src := render (hrow :: rows)) (offs := offs) true hrow rows [] (by simp [render]) (fun _ => hhdr) htab' hnc
+      hsh (by omega) (fun c hc => zeros_first c hc) hcap hrows (Or.inl rfl)
+  refine ⟨o, by simpa using hker, hok.nextPos, hok.written, hok.indsFull, hok.valsFull, hok.vfc, ?_⟩
+  intro c hc
+  have hE : stageRows (fun _ => []) rows c = column (values rows) c := by rw [stageRows_col]; rfl
+  have hlen : (column (values rows) c).length = rows.length := by
+    rw [column_length]
+    · simp [values]
+    · intro r hr
+      simp only [values, List.mem_map] at hr
+      obtain ⟨r', hr', rfl⟩ := hr
+      simp [(htab' r' hr').1, hc]
+  have h := importPart_indexed (hok.cols c hc) (offs_get hbuf.len (by omega))
+  rw [hE, hlen] at h
+  exact h
+
+/-- **fsm_split_at_record_end.** The state of the FSM at a record end is its initial state: a call entered at the end of
+    the records `rowsA` (at byte `|pre|`, whatever text `pre` lies in front) on a window that continues with the records
+    `rowsB` yields exactly `rowsB` — its result does not depend on `pre` — and resumes at the end of the window. Together
+    with `render_append` / `column_append` this is how parsing splits at record boundaries. -/
+theorem fsm_split_at_record_end {ncols maxrow : Nat} {offs : List Nat} (pre : List Nat) (rowsB : List (List Cell))
+    (htab : Table ncols rowsB) (hne : rowsB ≠ []) (hbuf : Buffers ncols maxrow offs) (hfit : Fits ncols offs rowsB)
+    (hrows : rowsB.length < maxrow) :
+    ∃ o, fastCsvReader (pre ++ render rowsB) pre.length (zeros2 ncols (maxrow + 1)) (List.replicate (offs.getLastD 0) 0)
+          offs false = .ok o ∧
+      o.nextPos = (pre ++ render rowsB).length ∧ o.written = rowsB.length ∧ o.indsFull = false ∧ o.valsFull = false ∧
+      ∀ c, c < ncols →
+        Imp.importPart { kind := .indexed } o.inds o.vals offs c rowsB.length = .ok (fieldOf (column (values rowsB) c)) := by
+  obtain ⟨hnc, htab'⟩ := htab
+  have hsh := shape_zeros (maxrow := maxrow) hbuf.len hbuf.zero hbuf.mono
+  have hcap : RowsCap offs (fun _ => []) rowsB :=
+    rowsCap_of_final offs ncols rowsB _ (fun r hr => (htab' r hr).1) (by simpa [Fits] using hfit)
+  obtain ⟨o, hker, hok⟩ :=
+    kernel_records (src := pre ++ render rowsB) (offs := offs) false [] rowsB pre (by simp) (fun h => by cases h) htab' hnc
+      hsh (by omega) (fun c hc => zeros_first c hc) hcap hrows (Or.inr hne)
+  refine ⟨o, hker, hok.nextPos, hok.written, hok.indsFull, hok.valsFull, ?_⟩
+  intro c hc
+  have hE : stageRows (fun _ => []) rowsB c = column (values rowsB) c := by rw [stageRows_col]; rfl
+  have hlen : (column (values rowsB) c).length = rowsB.length := by
+    rw [column_length]
+    · simp [values]
+    · intro r hr
+      simp only [values, List.mem_map] at hr
+      obtain ⟨r', hr', rfl⟩ := hr
+      simp [(htab' r' hr').1, hc]
+  have h := importPart_indexed (hok.cols c hc) (offs_get hbuf.len (by omega))
+  rw [hE, hlen] at h
+  exact h
+
+/-- the text and the values of a table split at every record boundary -/
+theorem render_append (a b : List (List Cell)) : render (a ++ b) = render a ++ render b := by
+  induction a with
+  | nil => rfl
+  | cons r rs ih => simp [render, ih]
+
+theorem column_append (a b : List (List Cell)) (c : Nat) :
+    column (values (a ++ b)) c = column (values a) c ++ column (values b) c := by
+  simp [column, values]
+
+/-- **import_single_window_eq_spec.** `read_file_using_fast_csv_reader` on a well-formed file (with or without the final
+    line break) whose bytes fit in one window (`len ≤ 2·chunk_row_size·columns`), whose columns fit their value budgets and
+    whose records fit the index buffer (`rows < 2·chunk_row_size`): one kernel call, and the destination field of every
+    column of `index_map` is exactly that column of the table, in file order; the row count is the number of records. -/
+theorem import_single_window_eq_spec {file : List Nat} {crs ncols : Nat} {offs : List Nat} (hrow : List Cell)
+    (rows : List (List Cell)) (im : List Nat) (fuel : Nat)
+    (hfile : file = render (hrow :: rows) ∨ (file ++ [Csv.NL] = render (hrow :: rows) ∧ file.getLast? ≠ some Csv.NL))
+    (hne : file ≠ []) (hhdr : hrow.length = ncols ∧ ∀ c ∈ hrow, c.WF) (htab : Table ncols rows) (hcrs : 0 < crs)
+    (hwin : file.length ≤ crs * Gen.Csv.CHUNK_ROW_FACTOR * ncols)
+    (hbuf : Buffers ncols (crs * Gen.Csv.CHUNK_ROW_FACTOR) offs) (hfit : Fits ncols offs rows)
+    (hrows : rows.length < crs * Gen.Csv.CHUNK_ROW_FACTOR) (him : ∀ c ∈ im, c < ncols) (hfuel : 0 < fuel) :
+    readFile file crs ncols offs im (im.map (fun _ => ({ kind := .indexed } : Imp))) fuel =
+      .ok ⟨rows.length, im.map (fun c => fieldOf (column (values rows) c)), [(rows.length : Int)]⟩ :=
+  readFile_single_window hrow rows im fuel hfile hne hhdr htab.2 htab.1 hcrs hwin hbuf.len hbuf.zero hbuf.mono hfit hrows
+    him hfuel
 
 theorem fieldsToUse_sublist (names : List String) (incl excl : Option (List String)) :
     (fieldsToUse names incl excl).Sublist names := by
@@ -15,25 +132,75 @@ theorem fieldsToUse_sublist (names : List String) (incl excl : Option (List Stri
   · exact List.filter_sublist
   · exact List.Sublist.trans List.filter_sublist List.filter_sublist
 
-/-- include / exclude lists select exactly the named columns, in file order, and `index_map` points at them. -/
+/-- **include_exclude_selects.** include / exclude lists select exactly the named columns, in file order, and
+    `index_map` points at them. -/
 theorem include_exclude_selects (names : List String) (incl excl : Option (List String)) :
     (fieldsToUse names incl excl).Sublist names ∧
     (∀ k, k ∈ fieldsToUse names incl excl ↔
       k ∈ names ∧ (∀ i, incl = some i → k ∈ i) ∧ (∀ e, excl = some e → k ∉ e)) ∧
     (∀ k ∈ fieldsToUse names incl excl, names[names.idxOf k]? = some k) := by
-  refine ⟨?_, ?_, ?_⟩
-  · exact fieldsToUse_sublist names incl excl
+  refine ⟨fieldsToUse_sublist names incl excl, ?_, ?_⟩
   · intro k
     unfold fieldsToUse
     cases incl <;> cases excl <;> simp [List.mem_filter]
     intro _; exact And.comm
   · intro k hk
-    have hmem : k ∈ names := by
-      exact (fieldsToUse_sublist names incl excl).subset hk
+    have hmem : k ∈ names := (fieldsToUse_sublist names incl excl).subset hk
     have hlt : names.idxOf k < names.length := List.idxOf_lt_length_of_mem hmem
     rw [List.getElem?_eq_getElem hlt]
     simp [List.getElem_idxOf hlt]
 
+/-! ### non-vacuity: a concrete file with a quoted separator, a doubled quote, a quoted line break and a blank-led cell -/
+
+/-- header `a,b`; records `x,"p,q"` / ` y,"r""s"` / `,"t⏎u"` -/
+def exHeader : List Cell := [⟨false, [97]⟩, ⟨false, [98]⟩]
+def exRows : List (List Cell) :=
+  [[⟨false, [120]⟩, ⟨true, [112, 44, 113]⟩], [⟨false, [32, 121]⟩, ⟨true, [114, 34, 115]⟩], [⟨false, []⟩, ⟨true, [116, 10, 117]⟩]]
+
+example : Table 2 exRows := by
+  refine ⟨by decide, ?_⟩
+  intro r hr
+  simp only [exRows, List.mem_cons, List.not_mem_nil, or_false] at hr
+  rcases hr with h | h | h <;> subst h <;> refine ⟨rfl, ?_⟩ <;> intro c hc <;>
+    simp only [List.mem_cons, List.not_mem_nil, or_false] at hc <;> rcases hc with h | h <;> subst h <;>
+    simp [Cell.WF] <;> decide
+
+example : Buffers 2 4 [0, 20, 40] := by
+  refine ⟨rfl, rfl, ?_⟩
+  intro c hc
+  have : c = 0 ∨ c = 1 := by omega
+  rcases this with rfl | rfl <;> decide
+example : Fits 2 [0, 20, 40] exRows := by
+  intro c hc
+  have : c = 0 ∨ c = 1 := by omega
+  rcases this with rfl | rfl <;> decide
+
+/-- the model evaluated on that file (read in one window, `chunk_row_size = 10`): 3 records, `" y"` stored as `"y"` -/
+example : (match readFile (render (exHeader :: exRows)) 10 2 [0, 100, 200] [0, 1]
+                   [{ kind := .indexed }, { kind := .indexed }] 5 with
+           | .ok o => decide (o = ⟨3, [fieldOf [[120], [121], []], fieldOf [[112, 44, 113], [114, 34, 115], [116, 10, 117]]], [3]⟩)
+           | .error _ => false) = true := by
+  decide +kernel
+
+example : values exRows = [[[120], [112, 44, 113]], [[121], [114, 34, 115]], [[], [116, 10, 117]]] := by decide
 example : fieldsToUse ["a", "b", "c"] (some ["c", "a"]) (some ["a"]) = ["c"] := by decide
+
+/-! ### not proved
+
+`window_chunking_unobservable` (full statement):
+  for every well-formed file `file` of a header and a table `rows` with `ncols` columns, every `crs ≥ 1` in the supported
+  regime `Supported crs file := every line of `file` (header line and every record, with its line break) has at most
+  `2 * crs * ncols` bytes`, every `offs` with budgets ≥ 1 and every `index_map`:
+    ∃ fuel calls, readFile file crs ncols offs im (fresh indexed fields) fuel
+        = .ok ⟨rows.length, im.map (fun c => fieldOf (column (values rows) c)), calls⟩
+  i.e. the result equals the single-window result of `import_single_window_eq_spec` for every chunk size and any number of
+  windows (partial trailing records are re-read; an escaped-quote candidate at a window end is retried).
+`regrowth_unobservable` (full statement): the same conclusion without the hypotheses `Fits` and `rows < 2·crs`, for any
+  number of index-buffer and value-buffer regrowths (budgets double until the cell fits).
+What is missing: the kernel lemma for a window that ends inside a record (`kernel_records` covers windows made of complete
+records, entered at any record boundary — the building block), the early return on a full buffer, and the induction over
+driver iterations. Support for the unproved part: the correspondence run (exhaustive small scope over every supported
+`crs`, budgets 1/2/ample, all-empty-cell files; random files), model = code = reference parser.
+-/
 
 end Exetera.Props.C05
